@@ -51,6 +51,36 @@ example : encode ⟨0, 2, [⟨0, 0, [100], 0, 0, 0⟩], false⟩ = [0x10, 0x10, 
   simp [encode, bitrates, w1]
   decide
 
+/-- The specification encoder against captured payloads: the remaining vectors of TestVLAUnmarshal
+    (two streams with a shared bitmask; a paused middle stream with resolutions; two paused streams)
+    decode to valid allocations whose `encode` is the vector again. -/
+example : unmarshal default [0x11, 0x10, 0xc8, 0x01, 0xd0, 0x05, 0xb0, 0x09] =
+    .ok 8 ⟨0, 2, [⟨0, 0, [200], 0, 0, 0⟩, ⟨1, 0, [720, 1200], 0, 0, 0⟩], false⟩ := by decide
+example : (⟨0, 2, [⟨0, 0, [200], 0, 0, 0⟩, ⟨1, 0, [720, 1200], 0, 0, 0⟩], false⟩ : VLA).WF ∧
+    encode ⟨0, 2, [⟨0, 0, [200], 0, 0, 0⟩, ⟨1, 0, [720, 1200], 0, 0, 0⟩], false⟩ =
+      [0x11, 0x10, 0xc8, 0x01, 0xd0, 0x05, 0xb0, 0x09] := by
+  refine ⟨by decide, ?_⟩
+  simp [encode, bitrates, writeLeb_two]
+  decide
+example : encode ⟨1, 3, [⟨0, 0, [150], 320, 180, 30⟩, ⟨2, 0, [720, 1200], 1280, 720, 30⟩], true⟩ =
+    [0x60, 0x10, 0x10, 0x10, 0x96, 0x01, 0xd0, 0x05, 0xb0, 0x09, 0x01, 0x3f, 0x00, 0xb3, 0x1e, 0x04, 0xff,
+     0x02, 0xcf, 0x1e] := by
+  simp [encode, bitrates, writeLeb_two]
+  decide
+example : unmarshal default [0xa0, 0x00, 0x10, 0x40, 0xac, 0x02, 0xf4, 0x03] =
+    .ok 8 ⟨2, 3, [⟨2, 0, [300, 500], 0, 0, 0⟩], false⟩ := by decide
+example : (⟨2, 3, [⟨2, 0, [300, 500], 0, 0, 0⟩], false⟩ : VLA).WF ∧
+    encode ⟨2, 3, [⟨2, 0, [300, 500], 0, 0, 0⟩], false⟩ = [0xa0, 0x00, 0x10, 0x40, 0xac, 0x02, 0xf4, 0x03] := by
+  refine ⟨by decide, ?_⟩
+  simp [encode, bitrates, writeLeb_two]
+  decide
+example : unmarshal default [0xa0, 0x00, 0x10, 0x40, 0x94, 0x05, 0xcc, 0x08] =
+    .ok 8 ⟨2, 3, [⟨2, 0, [660, 1100], 0, 0, 0⟩], false⟩ := by decide
+example : encode ⟨2, 3, [⟨2, 0, [660, 1100], 0, 0, 0⟩], false⟩ =
+    [0xa0, 0x00, 0x10, 0x40, 0x94, 0x05, 0xcc, 0x08] := by
+  simp [encode, bitrates, writeLeb_two]
+  decide
+
 /-- Round trip, for every receiver state: the bytes of a valid allocation whose bitrates are below
     2^56 kbps decode to the same allocation (resolution fields compared when present), and all of
     them are consumed.  `hleb` (ReadLeb128 ∘ WriteToLeb128 = id below 2^56) is proved in
